@@ -184,6 +184,50 @@ def run(prog, chk):
                    on_unknown="both", prog=prog, loop_bound=6)
         return I.run()
 
+    # reference: the calendar tree for publication time p has a complete left subtree of highbit(p) leaves and, recursively, the
+    # tree for p - highbit(p) on the right; the (top-down) direction sequence of leaf t is unique.  A chain is stored bottom-up and
+    # the source walks it from its end, i.e. top-down.
+    def hb(n):
+        return 1 << (n.bit_length() - 1) if n > 0 else 0
+
+    def ref_path(pp, t):
+        out = []
+        while pp > 0:
+            h = hb(pp)
+            if t < h:
+                out.append(1)
+                pp = h - 1
+            else:
+                out.append(0)
+                pp -= h
+                t -= h
+        return tuple(out)
+    nsc = 0
+    for pubt in range(0, 10):
+        valid = {ref_path(pubt, t): t for t in range(pubt + 1)}
+        wrong = []
+        for length in range(0, 5):
+            for dirs in itertools.product((0, 1), repeat=length):
+                # the source reads element length-1 first: hand out the directions in reading (top-down) order
+                paths = caltime(length, pubt, list(dirs))
+                chk.paths += len(paths)
+                nsc += 1
+                if len(paths) != 1 or paths[0].undetermined:
+                    raise AnalysisBroken("calculateCalendarAggregationTime: evaluation not determined for publication time %d, directions %s" % (pubt, dirs))
+                q = paths[0]
+                st = [x[2] for x in q.stores("*" + outp)]
+                want = valid.get(tuple(dirs)) if length > 0 else None
+                ok = (q.ret == 0 and st == [want]) if want is not None else (q.ret not in (0, None) and not st)
+                if not ok:
+                    wrong.append((dirs, want, q.ret, st))
+        chk.ob("C03.caltime", "calculateCalendarAggregationTime[publication time %d]" % pubt, not wrong,
+               "all 31 left/right sequences of up to 4 links: accepted exactly when the sequence is the path of a leaf of the calendar tree for "
+               "this publication time, with that leaf's time" + ("" if not wrong else
+               "; WRONG for %d sequences, e.g. top-down %s (1 = left link): reference %s, source returns %s and stores %s"
+               % (len(wrong), list(wrong[0][0]), "time %d" % wrong[0][1] if wrong[0][1] is not None else "not a path of this tree (error required)",
+                  hex(wrong[0][2]) if isinstance(wrong[0][2], int) else wrong[0][2], wrong[0][3])), loc=ft.loc(), fn=ft)
+    if nsc < 300:
+        raise AnalysisBroken("calendar time table: only %d scenarios" % nsc)
     for inst, (length, r0, lefts), want_err in (
             ("empty-chain", (0, 5, []), True),
             ("time-exhausted-inside", (3, 1, [0, 0, 0]), True),
